@@ -153,6 +153,11 @@ def inplace_on_state_values(ctx, funcs=None):
                 return True
             if isinstance(e, _ast.Call) and isinstance(e.func, _ast.Attribute) and e.func.attr in ("get_tensor_value", "get_tensor_values", "__getitem__") and sw._is_state_expr(e.func.value, f, prov):
                 return True
+            # `<model>.parameters[name]` / `.hyperparameters[name]`: the properties hand out the State's own tensors ({p: self._state[p] ...})
+            if isinstance(e, _ast.Subscript) and isinstance(e.value, _ast.Attribute) and e.value.attr in ("parameters", "hyperparameters") \
+                    and not (isinstance(e.value.value, _ast.Name) and e.value.value.id in ("settings", "algo_settings", "algorithm_settings", "outputs")) \
+                    and not (isinstance(e.value.value, _ast.Attribute) and e.value.value.attr in ("settings", "algo_settings")):
+                return True
             return False
 
         def alias(e) -> bool:
@@ -164,7 +169,7 @@ def inplace_on_state_values(ctx, funcs=None):
                 return alias(e.value)
             if isinstance(e, _ast.Subscript):
                 return alias(e.value)  # basic indexing gives a view
-            if isinstance(e, _ast.Call) and isinstance(e.func, _ast.Attribute) and e.func.attr in ("view", "reshape", "squeeze", "unsqueeze", "expand", "t", "detach", "flatten", "transpose", "permute"):
+            if isinstance(e, _ast.Call) and isinstance(e.func, _ast.Attribute) and e.func.attr in ("view", "reshape", "squeeze", "unsqueeze", "expand", "t", "detach", "flatten", "transpose", "permute", "numpy", "view_as", "expand_as", "narrow", "select", "unbind", "ravel"):
                 return alias(e.func.value)
             if isinstance(e, _ast.IfExp):
                 return alias(e.body) or alias(e.orelse)
